@@ -394,6 +394,10 @@ impl TransportHandle {
     }
 }
 
+#[cfg(litep2p_verif)]
+#[path = "../../verif/c10.rs"]
+pub(crate) mod verif_c10;
+
 #[cfg(test)]
 mod tests {
     use crate::transport::manager::{
